@@ -120,8 +120,20 @@ class System:
     # ---- reference model
     def ref_evaluate(self, b: Body, spread: bool):
         g = b.inter.forcing_grid
-        # marker kinematics are C09's subject: take them from the grid after the event
-        X, V = g.position_field, g.velocity_field
+        # marker kinematics re-derived from the BODY state (rigid-section kinematics, as in C09), not read
+        # from the forcing grid: a stale grid field must show up as a PI-law violation
+        body = b.body
+        Q = body.director_collection[:, :, 0]
+        if self.dim == 2:
+            r_glob = (Q.T[:2, :2] @ g.local_frame_relative_position_field)
+            r3 = np.zeros((3, r_glob.shape[1]))
+            r3[:2] = r_glob
+        else:
+            # the sphere grid keeps lab-frame offsets (its markers translate with the centre)
+            r3 = g.global_frame_relative_position_field.copy() if not hasattr(g, "_verif_local") else Q.T @ g.local_frame_relative_position_field
+        om_lab = Q.T @ body.omega_collection[:, 0]
+        X = (body.position_collection + r3)[: self.dim]
+        V = (body.velocity_collection + np.cross(om_lab, r3.T).T)[: self.dim]
         n = X.shape[1]
         U = np.zeros((self.dim, n), dtype=LD)
         W = []
